@@ -342,10 +342,10 @@ fn compare(out: &mut Outcome, i: usize, l: &NodeView, f: &NodeView, rp: &Replay,
             let import_version = imported_cas_keys.contains(k);
             let sig = if cas_shape {
                 "a plain value of the shape {\"Cas\":[x,n]} arrives on a joining follower as a CAS entry"
-            } else if end_keys.contains(k) {
-                "deletes and sets performed at the end of a session (grave goods, last will) are not replicated to followers"
             } else if import_version {
                 "CAS versions of imported entries differ between leader and follower"
+            } else if end_keys.contains(k) {
+                "deletes and sets performed at the end of a session (grave goods, last will) are not replicated to followers"
             } else {
                 "a follower's user keys differ from the leader's after it processed everything the leader sent"
             };
